@@ -49,12 +49,12 @@ fn run(r: &mut Run) -> Result<(), MachineryError> {
                         let mut all = vec![0];
                         all.extend(fb.iter().map(|&(_, hi)| hi));
                         all.push(par.len());
-                        if (0..all.len() - 1).any(|k| ref_width(par[all[k]..all[k + 1]].trim_end_matches(' ')) > w) {
+                        if (0..all.len() - 1).any(|k| ref_visible(par[all[k]..all[k + 1]].trim_end_matches(' ')).map(|v| v.width() > w).unwrap_or(true)) {
                             pre = false;
                         }
                     }
                 }
-                if !cfg.is_ff() && f1.split('\n').any(|l| ref_width(l) > w) {
+                if !cfg.is_ff() && f1.split('\n').any(|l| ref_visible(l).map(|v| v.width() > w).unwrap_or(true)) {
                     pre = false;
                 }
                 if !pre {
